@@ -38,18 +38,32 @@ Proof.
   destruct a; simpl; unfold item_comments; simpl; rewrite ?app_nil_r; auto.
   - pose proof (split_lf0_app cs) as H. destruct (split_lf0 cs) as [a0 b0]; simpl in *.
     now rewrite !app_nil_r.
+  - destruct n as [|m]; simpl; rewrite ?app_nil_r; auto.
+    change (flat_map fst (map (fun y : tok => ([] : list com, y)) (repeat t_rparen m ++ [t])))
+      with (item_comments (map (fun y : tok => ([] : list com, y)) (repeat t_rparen m ++ [t]))).
+    now rewrite item_comments_nocom, app_nil_r.
   - destruct ts as [|x r]; simpl; rewrite ?app_nil_r; auto.
     change (flat_map fst (map (fun y : tok => ([] : list com, y)) r))
       with (item_comments (map (fun y : tok => ([] : list com, y)) r)).
     now rewrite item_comments_nocom, app_nil_r.
 Qed.
 
+Lemma step0_comments c s cs t nk out s' carry :
+  step0 c s cs t nk = (out, s', carry) -> item_comments out ++ carry = cs.
+Proof.
+  unfold step0. pose proof (emit_comments (decide c s t nk) cs t) as H.
+  destruct (emit (decide c s t nk) cs t) as [o ca]; simpl in *.
+  intros E. injection E as E1 E2 E3. rewrite <- E1, <- E3. exact H.
+Qed.
+
 Lemma step_comments c s cs t nk out s' carry :
   step c s cs t nk = (out, s', carry) -> item_comments out ++ carry = cs.
 Proof.
-  unfold step. pose proof (emit_comments (decide c s t nk) cs t) as H.
-  destruct (emit (decide c s t nk) cs t) as [o ca]; simpl in *.
-  intros E. injection E as E1 E2 E3. rewrite <- E1, <- E3. exact H.
+  unfold step. destruct (opens_return s t).
+  - destruct (step0 c (adv c s t_lparen) cs t nk) as [[o s1] ca] eqn:E0.
+    intros E. injection E as E1 E2 E3. subst out carry.
+    apply step0_comments in E0. exact E0.
+  - apply step0_comments.
 Qed.
 
 Theorem run_comments c : forall its s carry out tl,
